@@ -59,16 +59,12 @@ def component(L, t, which: str) -> bool:
 
 def constant_tagging(prog, meth: str, tang: str):
     """Diff.no_change / unknown_change: the primal is stripped first (idempotent on tagged trees) and every leaf is paired with the constant `tang`"""
+    from ..terms import const_tagging
     D = prog.cls("Diff", INC)
     fn = D.methods[meth]
-    r = Evaluator(prog).eval_fn(fn, D.module, D)
+    ev = Evaluator(prog)
+    ev.inline_tag_helpers = True  # a parametrised helper (Diff.h(tree, T)) is read through: its body is what is judged
+    r = ev.eval_fn(fn, D.module, D)
     t = r.ret
     x = P(fn.args.args[0].arg)
-    prim = ("call", ("attr", ("global", D.module.dotted + ".Diff"), "tree_primal"), (x,), ())
-    is_tang = lambda g: is_t(g, "global") and g[1].endswith("." + tang)
-    ok = False
-    if is_call(t, "tree_diff") and len(t[2]) == 2 and t[2][0] == prim and is_t(t[2][1], "treemap") and t[2][1][2] == (prim,) and is_tang(t[2][1][1]):
-        ok = True  # tree_diff(primal, tree_map(lambda _: T, primal))
-    elif is_t(t, "treemap") and t[2] == (prim,) and is_t(t[1], "ctor") and t[1][1] == "Diff" and len(t[1][2]) == 2 and t[1][2][0] == ("leaf", prim) and is_tang(t[1][2][1]):
-        ok = True  # tree_map(lambda p: Diff(p, T), primal)
-    return ok, show(t)[:200]
+    return const_tagging(t, x, lambda g: is_t(g, "global") and g[1].endswith("." + tang)), show(t)[:200]
